@@ -25,7 +25,7 @@ func init() {
 		Assumptions: []string{"generic instantiations are not distinguished (the generic body is analysed once)", "container/list behaves as documented"},
 		Tech:        "static analysis: lock-state dataflow, structural pairing (must-pass-through both ways), guarded-by-condition and per-implementation Admit-populates-what-Access/Remove-index contract on the SSA of the generic bodies",
 		NeedU1:      true,
-		Rules:       []func(*Ctx){ruleC15Lock, ruleC15Bijection, ruleC15Bounded, ruleC15CallbackExactlyOnce, ruleC15AdmitRegisters, ruleC15RegistrationFollowsSegment, ruleC15ListEndsNonEmpty, ruleC15NoReentry},
+		Rules:       []func(*Ctx){ruleC15Lock, ruleC15Bijection, ruleC15Bounded, ruleC15CallbackExactlyOnce, ruleC15AdmitRegisters, ruleC15RegistrationFollowsSegment, ruleC15SegmentFlagFollowsList, ruleC15ListEndsNonEmpty, ruleC15NoReentry},
 	})
 }
 
@@ -854,4 +854,72 @@ func listElemSafe(v ssa.Value, at *ssa.BasicBlock, al valueSet, depth int) bool 
 		}
 	}
 	return true
+}
+
+// ruleC15SegmentFlagFollowsList: SLRU keeps per item a `protected` flag that says which of its two lists holds the item;
+// Access/Remove pick the list by the flag. Every insertion of an slruItem into the probation (protected) list must
+// travel with protected=false (true) for that item — set on the same paths, or by the literal that creates it.
+func ruleC15SegmentFlagFollowsList(c *Ctx) {
+	u := c.U1
+	c.rule("C15.segment-flag-follows-list", "in every method of slru each PushFront/PushBack of an item onto probationList (protectedList) travels with that item's protected flag being false (true): a literal created with it, or a store on the same paths", 3)
+	n := 0
+	for _, f := range u.RepoFuncs {
+		if f.Signature.Recv() == nil || !typeIsNamed(f.Signature.Recv().Type(), pkgCache, "slru") {
+			continue
+		}
+		allInstrs(f, func(i ssa.Instruction) {
+			cv, ok := i.(*ssa.Call)
+			if !ok || cv.Call.StaticCallee() == nil {
+				return
+			}
+			fn := funcFullName(cv.Call.StaticCallee())
+			if fn != "(*container/list.List).PushFront" && fn != "(*container/list.List).PushBack" {
+				return
+			}
+			_, listField, isF := fieldAccess(cv.Call.Args[0])
+			if !isF || (listField != "probationList" && listField != "protectedList") {
+				return
+			}
+			want := listField == "protectedList"
+			n++
+			c.CallSites++
+			c.FuncsAnalysed[shortName(f)] = true
+			construct := trimPkgDirs(shortName(f)) + "/push-" + listField
+			item := cv.Call.Args[1]
+			if mi, isMI := item.(*ssa.MakeInterface); isMI {
+				item = mi.X
+			}
+			good := false
+			// created by a literal with the right flag
+			if a := allocOf(item); a != nil {
+				if fv, has := litFields(a)["protected"]; has {
+					if k, isC := constOf(fv); isC && (k.ExactString() == "true") == want {
+						good = true
+					}
+				} else if !want {
+					good = true // zero value: false
+				}
+			}
+			if !good {
+				ip := accessPath(item)
+				allInstrs(f, func(j ssa.Instruction) {
+					st, isSt := j.(*ssa.Store)
+					if !isSt {
+						return
+					}
+					base, fld, isFA := fieldAccess(st.Addr)
+					if !isFA || fld != "protected" || accessPath(base) != ip {
+						return
+					}
+					if k, isC := constOf(st.Val); isC && (k.ExactString() == "true") == want && travelTogether(j, i) {
+						good = true
+					}
+				})
+			}
+			c.check(good, construct, u.ipos(i), fmt.Sprintf("item.protected = %v travels with the insertion", want), fmt.Sprintf("an item is linked into the %s without its protected flag being set to %v on the same paths: Access/Remove then address the other list (container/list ignores foreign elements), the item is never unlinked — repeated eviction callbacks for it, size drifts, the map outgrows its capacity", listField, want))
+		})
+	}
+	if n == 0 {
+		c.bad("slru/pushes", "", "no list insertions found in slru")
+	}
 }
